@@ -420,6 +420,9 @@ func (x Expr) Has(data any) bool {
 					}
 				}
 			} else {
+				// The expansion of prev is done. Clear the flag so a sibling of
+				// prev that shares this marker is expanded as well.
+				stack[len(stack)-1] = di &^ descentFlag
 				stack = append(stack, prev)
 			}
 		case Root:
